@@ -1422,13 +1422,18 @@ func getPath(keys []interface{}, set map[string]int) *pathTransform {
 
 			newPath = append(newPath, fmt.Sprintf("%d", set[mapperKey]))
 		default:
-			originalPath = append(originalPath, fmt.Sprintf("%s", v))
-			newPath = append(newPath, fmt.Sprintf("%s", v))
+			// the paths are read by gjson / sjson: a '.' inside a member name is not a path separator.
+			key := pathKeyEscaper.Replace(fmt.Sprintf("%s", v))
+			originalPath = append(originalPath, key)
+			newPath = append(newPath, key)
 		}
 	}
 
 	return &pathTransform{newPath: strings.Join(newPath, "."), oldPath: strings.Join(originalPath, ".")}
 }
+
+// pathKeyEscaper escapes, in a member name, the characters gjson / sjson read as path syntax.
+var pathKeyEscaper = strings.NewReplacer(`\`, `\\`, ".", `\.`) //nolint:gochecknoglobals
 
 func merge(
 	presentationFormat string,
